@@ -206,7 +206,9 @@ def run(ctx):
 CLAIM = {
     "text": "Sibling/field-effect rule on MIR for every AggregateState implementation in the workspace: W(update) ⊆ W(merge) and "
             "W(update) ⊆ R(merge, other). This is the structural precondition for aggregates to be independent of how rows are split over "
-            "partitions; the numeric correctness of the combination is a value question and is not decided.",
+            "partitions; the numeric correctness of the combination is a value question and is not decided. Plus a guard rule: a merge that "
+            "compares with or takes the other state's value does so only behind the other state's validity flag (an empty partial state "
+            "holds the type's default value, not a minimum).",
     "note": "trusted: rustc MIR; a &mut borrow of a field counts as a write, any mention as a read; whole-state operations (swap/assign) cover all fields",
     "technique": "static analysis: MIR field-effect summaries + sibling agreement (rustc_private driver)",
 }
